@@ -46,6 +46,17 @@ add(
     "DESIGN.md §4 C20",
 )
 
+add(
+    "C02", "exploration",
+    "Hypothesis over tag kind x value grammar x 27 comment styles x 6 line forms x decoration; by-construction expected sets; file-level window/snippet/EOL cases through lint --json",
+    "Tens of thousands of generated texts (1..5 tag lines in every documented comment syntax, as single-line, inline, block, terminator-on-tag-line and "
+    "ASCII-art frame forms, with indentation, trailing blanks and tabs) are read by extract_reuse_info and must yield exactly the written values; ~2000 "
+    "generated files per quick run place a tag against the 4096-byte boundary, add a snippet marker or an unparseable expression, use LF/CRLF/CR, in the "
+    "file or its .license sibling, and are judged through `reuse lint --json`. One recorded finding (mirrored punctuation tail) is routed around by signature.",
+    "Comment syntaxes are re-stated in vlib/gen/styles.py; values ending in a comment terminator and tags straddling byte 4096 are outside the generated domain.",
+    "DESIGN.md §4 C02",
+)
+
 NOT_BUILT = "check not built yet in this revision of /verif (planned in DESIGN.md §4; property-based testing applies)"
 
 
